@@ -204,6 +204,34 @@ theorem gen_deletionSites : Dtn7.Gen.C15.deletionSites =
 theorem gen_bundleSentSites : Dtn7.Gen.C15.bundleSentSites =
     ["forward | unless bp.MustBundle().IsLifetimeExceeded() | for range nodes | go | func literal | else of (err := node.Send(*bp.MustBundle()); err != nil) | func literal | bundleSent = true"] := by rfl
 
+/-- The retry path: `checkPendingBundles` rebuilds every descriptor from the ID the store keeps
+(`bi.BId`), `newBundleItem` stores that ID scrubbed (no fragment offset / total length), and
+`BundleDescriptor.Bundle` loads the bundle itself from the stored bytes — which is where
+`SendStatusReport` takes the reference from (`gen_sendStatusReport`, `gen_newStatusReport`). -/
+theorem gen_checkPendingBundles : Dtn7.Gen.C15.checkPendingBundles =
+    ["if bis, err := c.store.QueryPending(); err != nil",
+    "else",
+    "  for _, bi := range bis",
+    "    c.dispatching(NewBundleDescriptor(bi.BId, c.store))"] := by rfl
+
+theorem gen_newBundleItem : Dtn7.Gen.C15.newBundleItem =
+    ["bid := b.ID()",
+    "bi = BundleItem{ Id: bid.Scrub().String(), BId: bid.Scrub(), Pending: false, Expires: calcExpirationDate(b), Fragmented: b.PrimaryBlock.HasFragmentation(), Properties: make(map[string]interface{}), }",
+    "bp := BundlePart{ Filename: bundlePartPath(bid, storagePath), FragmentOffset: bid.FragmentOffset, TotalDataLength: bid.TotalDataLength, }",
+    "bi.Parts = append(bi.Parts, bp)",
+    "return"] := by rfl
+
+theorem gen_descriptorBundle : Dtn7.Gen.C15.descriptorBundle =
+    ["if descriptor.bndl != nil",
+    "  return descriptor.bndl, nil",
+    "if bi, err := descriptor.store.QueryId(descriptor.Id.Scrub()); err != nil",
+    "  return nil, err",
+    "else if bndl, err := bi.Parts[0].Load(); err != nil",
+    "  return nil, err",
+    "else",
+    "  descriptor.bndl = &bndl",
+    "  return &bndl, nil"] := by rfl
+
 /-- The fifth call site, in `localDelivery`: whatever else it is conditioned on, it reports
 `DeliveredBundle`/`NoInformation` and sits under the bundle's delivery-request flag. -/
 theorem gen_deliveryReport :
@@ -366,6 +394,20 @@ theorem ref_is_exact_id (cfg : Cfg) (n : Node) (s : Subject) (now : Nat) (fl : F
   have hid := (Lemmas.ssr_some hs).2.2.2.2.2.2.2.2.1
   refine ⟨hid, ?_, ?_⟩ <;> intro hf <;> simp [hid, Subject.id, hf]
 
+/-- **Also on the retry-from-store path**: `checkPendingBundles` rebuilds the descriptor from the
+store's index, which keeps the ID without fragment offset and total length; a report about a
+fragment nevertheless names the fragment (the reference is taken from the stored bundle itself),
+so it differs from the descriptor's ID. -/
+theorem ref_from_stored_bundle (cfg : Cfg) (n : Node) (s : Subject) (now : Nat) (d : Outcome)
+    (r : Report) (hf : s.isFragment = true) (hr : r ∈ flowReports cfg n s now (.retry d)) :
+    r.ref = s.id ∧ r.ref.frag = some (s.fragOffset, s.totalLen) ∧
+    r.ref ≠ descriptorId s (.retry d) := by
+  obtain ⟨hid, hfr, _⟩ := ref_is_exact_id cfg n s now (.retry d) r hr
+  refine ⟨hid, hfr hf, fun h => ?_⟩
+  have := congrArg BundleId.frag h
+  rw [hfr hf] at this
+  simp [descriptorId, storedId] at this
+
 /-- **A time is reported exactly if requested**: an item carries a time iff it is the asserted one
 and the subject has the request-time flag; and then it is the time of the report. -/
 theorem time_iff_requested (cfg : Cfg) (n : Node) (s : Subject) (now : Nat) (fl : Flow) (r : Report)
@@ -470,6 +512,8 @@ example : ∀ e ∈ [(⟨witnessNode, { exSubject with flags := fAdmin }, 5, .re
     e.subject.admin = true := by decide
 example : (Outcome.forwarded ≠ .noAgent) := by decide
 example : Outcome.noAgent ∉ flowOutcomes exSubject (.receive .forwarded) := by decide
+example : (flowReports ⟨true⟩ witnessNode exSubject 5 (.retry .forwarded)).map (·.ref.frag) =
+    [some (10, 100)] ∧ (descriptorId exSubject (.retry .forwarded)).frag = none := by decide
 example : nonAdminEventCount [⟨witnessNode, exSubject, 5, .receive .forwarded⟩] = 6 := by decide
 example : nonAdminEvents [⟨witnessNode, exSubject, 5, .receive .forwarded⟩] = 3 := by decide
 
